@@ -127,7 +127,7 @@ Fixpoint chunk_loop (s : str) (seg : str) (lens : list Z) : res chunk_entry :=
   | [] => RUndef          (* the loop ended on an 'x': chunk_rank is never assigned *)
   | c :: r =>
       if negb (is_digit c || existsb (Z.eqb c) chunk_alphabet) then RErr
-      else if 9 <? zlen seg + 1 then RUndef
+      else if negb (c =? ch_x) && (9 <? zlen seg + 1) then RUndef   (* sdim[10]: nine characters and the NUL *)
       else
         match r with
         | [] =>
@@ -177,7 +177,7 @@ Fixpoint digits_acc (fuel : nat) (n : Z) (acc : str) : str :=
   | O => acc
   | S f => if n <? 10 then (48 + n) :: acc else digits_acc f (n / 10) ((48 + n mod 10) :: acc)
   end.
-Definition print_nat (n : Z) : str := digits_acc 12 n [].
+Definition print_nat (n : Z) : str := digits_acc 9 n [].   (* numbers below 10^9: all the parser can take *)
 
 Fixpoint join (sep : Z) (l : list str) : str :=
   match l with
@@ -222,69 +222,56 @@ Fixpoint lookup (p : str) (t : list pack) : option pack :=
   | e :: t' => if str_eqb (p_path e) p then Some e else lookup p t'
   end.
 
-(** in-place update of the first entry named [n]; None = no such entry, Some None = refused (already set) *)
-Fixpoint upd_comp (n : str) (c : compinfo) (t : list pack) : option (option (list pack)) :=
+(** options_add_comp and options_add_chunk are the same loop over two different fields of the entry; the model has
+    one generic loop, instantiated twice.  [refuse e]: the entry already has this kind of information (FAIL);
+    [setf e]: the entry with the new information; [mk n]: a fresh entry for name [n].
+
+    In-place update of the first entry named [n]: None = no such entry, Some None = refused (already set). *)
+Fixpoint upd_entry (refuse : pack -> bool) (setf : pack -> pack) (n : str) (t : list pack)
+  : option (option (list pack)) :=
   match t with
   | [] => None
   | e :: t' =>
-      if str_eqb n (p_path e) then
-        (if 0 <? c_type (p_comp e) then Some None
-         else Some (Some ({| p_path := p_path e; p_comp := c; p_chunk := p_chunk e |} :: t')))
-      else match upd_comp n c t' with
+      if str_eqb n (p_path e) then (if refuse e then Some None else Some (Some (setf e :: t')))
+      else match upd_entry refuse setf n t' with
            | None => None
            | Some None => Some None
            | Some (Some t'') => Some (Some (e :: t''))
            end
   end.
 
-Fixpoint upd_chunk (n : str) (k : chunkinfo) (t : list pack) : option (option (list pack)) :=
-  match t with
-  | [] => None
-  | e :: t' =>
-      if str_eqb n (p_path e) then
-        (if 0 <? k_rank (p_chunk e) then Some None
-         else Some (Some ({| p_path := p_path e; p_comp := p_comp e; p_chunk := k |} :: t')))
-      else match upd_chunk n k t' with
-           | None => None
-           | Some None => Some None
-           | Some (Some t'') => Some (Some (e :: t''))
-           end
-  end.
-
-(** options_add_comp / options_add_chunk: names already in the table (as it was when the call started) are updated
-    in place, the others are appended after the loop; with an empty table every name is appended unchecked. *)
-Fixpoint add_comp_loop (names : list str) (c : compinfo) (t added : list pack) : option (list pack) :=
+(** names already in the table (as it was when the call started) are updated in place, the others are appended
+    after the loop *)
+Fixpoint add_loop (refuse : pack -> bool) (setf : pack -> pack) (mk : str -> pack) (names : list str)
+         (t added : list pack) : option (list pack) :=
   match names with
   | [] => Some (t ++ rev added)
   | n :: r =>
-      match upd_comp n c t with
+      match upd_entry refuse setf n t with
       | Some None => None
-      | Some (Some t') => add_comp_loop r c t' added
-      | None => add_comp_loop r c t ({| p_path := n; p_comp := c; p_chunk := chunk_default |} :: added)
+      | Some (Some t') => add_loop refuse setf mk r t' added
+      | None => add_loop refuse setf mk r t (mk n :: added)
       end
   end.
 
+Definition set_comp_of (c : compinfo) (e : pack) : pack := {| p_path := p_path e; p_comp := c; p_chunk := p_chunk e |}.
+Definition set_chunk_of (k : chunkinfo) (e : pack) : pack := {| p_path := p_path e; p_comp := p_comp e; p_chunk := k |}.
+Definition mk_comp (c : compinfo) (n : str) : pack := {| p_path := n; p_comp := c; p_chunk := chunk_default |}.
+Definition mk_chunk (k : chunkinfo) (n : str) : pack := {| p_path := n; p_comp := comp_default; p_chunk := k |}.
+Definition has_comp (e : pack) : bool := 0 <? c_type (p_comp e).
+Definition has_chunk (e : pack) : bool := 0 <? k_rank (p_chunk e).
+
+(** with an empty table the C code appends every name without looking (the "first time insertion" branch) *)
 Definition add_comp (names : list str) (c : compinfo) (t : list pack) : option (list pack) :=
   match t with
-  | [] => Some (map (fun n => {| p_path := n; p_comp := c; p_chunk := chunk_default |}) names)
-  | _ => add_comp_loop names c t []
-  end.
-
-Fixpoint add_chunk_loop (names : list str) (k : chunkinfo) (t added : list pack) : option (list pack) :=
-  match names with
-  | [] => Some (t ++ rev added)
-  | n :: r =>
-      match upd_chunk n k t with
-      | Some None => None
-      | Some (Some t') => add_chunk_loop r k t' added
-      | None => add_chunk_loop r k t ({| p_path := n; p_comp := comp_default; p_chunk := k |} :: added)
-      end
+  | [] => Some (map (mk_comp c) names)
+  | _ => add_loop has_comp (set_comp_of c) (mk_comp c) names t []
   end.
 
 Definition add_chunk (names : list str) (k : chunkinfo) (t : list pack) : option (list pack) :=
   match t with
-  | [] => Some (map (fun n => {| p_path := n; p_comp := comp_default; p_chunk := k |}) names)
-  | _ => add_chunk_loop names k t []
+  | [] => Some (map (mk_chunk k) names)
+  | _ => add_loop has_chunk (set_chunk_of k) (mk_chunk k) names t []
   end.
 
 Definition has_star (names : list str) : bool := existsb (str_eqb star) names.
@@ -559,3 +546,74 @@ Definition repack (o : options) (t : node) : option node :=
   if options_consistent o && names_ok o t && decisions_ok o None t
   then Some (map_layout (apply_decide o) None t)
   else None.
+
+(** * The strip-mining copy loop of copy_sds (objects of H4TOOLS_MALLOCSIZE bytes or more that are not stored
+    "compressed without chunking")
+
+    [strip_size], [strip_hs_size], [strip_wrap], [strip_carry] are generated from the loop's statements.  Lists of
+    dimensions are slowest first, as in the C arrays; the loops that run from the fastest dimension work on the
+    reversed lists.  [buf] is the buffer size in bytes (H4TOOLS_BUFSIZE in the tool; a parameter here). *)
+Fixpoint sm_sizes_rev (dims_rev : list Z) (nbytes buf : Z) : list Z :=
+  match dims_rev with
+  | [] => []
+  | d :: r => let s := strip_size d buf nbytes in s :: sm_sizes_rev r (nbytes * s) buf
+  end.
+Definition sm_sizes (dims : list Z) (eltsz buf : Z) : list Z := rev (sm_sizes_rev (rev dims) eltsz buf).
+
+Fixpoint hs_sizes (dims offs sm : list Z) : list Z :=
+  match dims, offs, sm with
+  | d :: dr, o :: orr, s :: sr => strip_hs_size d o s :: hs_sizes dr orr sr
+  | _, _, _ => []
+  end.
+
+(** "calculate the next hyperslab offset": from the fastest dimension, while the carry is set *)
+Fixpoint next_offset_rev (dims offs hs : list Z) : list Z :=
+  match dims, offs, hs with
+  | d :: dr, o :: orr, h :: hr =>
+      let o' := o + h in
+      let o'' := if truth (strip_wrap o' d h) then 0 else o' in
+      if truth (strip_carry o' d h) then o'' :: next_offset_rev dr orr hr else o'' :: orr
+  | _, _, _ => offs
+  end.
+Definition next_offset (dims offs hs : list Z) : list Z := rev (next_offset_rev (rev dims) (rev offs) (rev hs)).
+
+Definition zprod (l : list Z) : Z := fold_right Z.mul 1 l.
+
+(** the loop "for (elmtno = 0; elmtno < p_nelmts; elmtno += hs_nelmts)": the list of (offset, size) blocks that
+    are read from the input and written to the output, in order.  Fuel = number of elements (every pass moves at
+    least one element when all sizes are positive); running out of fuel with elements left yields an empty block
+    list marker that no theorem accepts. *)
+Fixpoint strip_walk (fuel : nat) (dims sm offs : list Z) (elmtno nelmts : Z) : option (list (list Z * list Z)) :=
+  if elmtno <? nelmts then
+    match fuel with
+    | O => None
+    | S f =>
+        let hs := hs_sizes dims offs sm in
+        match strip_walk f dims sm (next_offset dims offs hs) (elmtno + zprod hs) nelmts with
+        | Some l => Some ((offs, hs) :: l)
+        | None => None
+        end
+    end
+  else Some [].
+
+Definition strips (dims : list Z) (eltsz buf : Z) : option (list (list Z * list Z)) :=
+  strip_walk (Z.to_nat (zprod dims)) dims (sm_sizes dims eltsz buf) (map (fun _ => 0) dims) 0 (zprod dims).
+
+(** the cells of a block in row-major order, as linear (row-major) indices of the whole array *)
+Fixpoint zcount (lo : Z) (n : nat) : list Z := match n with O => [] | S k => lo :: zcount (lo + 1) k end.
+
+Fixpoint block_cells (dims offs hs : list Z) (base : Z) : list Z :=
+  match dims, offs, hs with
+  | d :: dr, o :: orr, h :: hr => flat_map (fun k => block_cells dr orr hr (base * d + k)) (zcount o (Z.to_nat h))
+  | _, _, _ => [base]
+  end.
+
+(** the order in which the strip-mining loop moves the cells of the array *)
+Definition strip_order (dims : list Z) (eltsz buf : Z) : option (list Z) :=
+  match strips dims eltsz buf with
+  | Some l => Some (flat_map (fun b => block_cells dims (fst b) (snd b) 0) l)
+  | None => None
+  end.
+
+(** does the object go through the strip-mining loop? *)
+Definition strip_mined (bytes flags comp : Z) : bool := negb (truth (sds_one_piece bytes flags comp)).
